@@ -46,7 +46,7 @@ def opts(tier):
             add_sensor(rng, spec, ctype, 0.3, only_float=True)
             add_scaling(rng, spec, ctype, p=0.5)
     o.scaling = scaling
-    return o
+    return gen.deepen(o, tier)
 
 
 def gen_actions(rng, w, nmax=60):
